@@ -1246,6 +1246,10 @@ def run(ck):
         c14_9(ck, prog)
         c14_12(ck, prog)
         c14_13(ck, prog)
+        rw = ck.rule('C14.14', "a connection's list of owned names (and its count, which max_names_per_connection is checked against) changes only with the life of an owner object: bus_connection_add_owned_service is called only by bus_owner_new, its _link form only by that function, bus_connection_remove_owned_service only by bus_owner_unref", 'WHO', breaks="a name is listed (and counted) twice for a connection after a cancelled ownership change: the limit is reached early, and the connection's disconnect removes the name twice (the bus crashes)", floor=3)
+        lib.who_calls(prog, rw, 'bus_connection_add_owned_service', {'bus_owner_new'})
+        lib.who_calls(prog, rw, 'bus_connection_add_owned_service_link', {'bus_connection_add_owned_service'})
+        lib.who_calls(prog, rw, 'bus_connection_remove_owned_service', {'bus_owner_unref'})
         from rules.C12 import c12_9
         c12_9(ck, prog, 'C14.10')
         c14_7(ck, prog)
